@@ -261,7 +261,8 @@ def judgeBuild (exact : Bool) (r out : List String) : Verdict :=
       { corr := same, judge := if inDom then some j else outsideVerdict same out,
         cls := (if triv then "triv:" else "") ++ (if exact then "buildx/" else "build/") ++ lenClass x.seq.length ++ "/" ++ reCls
                ++ (if x.features.any (fun f => f.attrs.isEmpty) then "/noattr" else "")
-               ++ (if hashSeqid x then "/kf:C14-hash-seqid" else "")
+               -- the known finding is tagged only when the reply is exactly the loss the model predicts
+               ++ (if hashSeqid x && !j && same then "/kf:C14-hash-seqid" else if hashSeqid x then "/hash-seqid" else "")
                ++ (if same && out != m then "/other-wrap" else ""),
         detail := if same && (j || !inDom) then "" else lineOf (m.drop 2) }
 
